@@ -473,8 +473,8 @@ def root_locals_through_calls(b, op, depth=0, seen=None):
         return set()
     seen.add(l)
     out = set()
-    if b.local_name(l):
-        out.add(l)
+    if b.local_name(l) or depth > 0:
+        out.add(l)  # (intermediate values count too: `flag.then(..).transpose()?` has no named local for the Option)
     for d in b.whole_defs(l):
         if d[0] not in b.live:
             continue
@@ -484,7 +484,7 @@ def root_locals_through_calls(b, op, depth=0, seen=None):
                 out |= root_locals_through_calls(b, rv['op'], depth + 1, seen)
         elif d[2] == 'call':
             nm = callee_name(d[3]) or ''
-            if re.search(r'::(unwrap_or|unwrap_or_default|unwrap_or_else|take|map|into|from|clone)$', nm) and d[3]['args']:
+            if re.search(r'::(unwrap_or|unwrap_or_default|unwrap_or_else|take|map|into|from|clone|transpose|branch|ok|flatten)$', nm) and d[3]['args']:
                 out |= root_locals_through_calls(b, d[3]['args'][0], depth + 1, seen)
     return out
 
